@@ -17,9 +17,11 @@
     is only repaired when the syntax policy makes its problems visible, so a record that
     declares the digest of the repaired block is rejected under syntax=ignore, accepted under
     warn and rejected under fail.  The attempt to prove the sentence produced this witness; the
-    implementation behaves the same (known finding wfblock-repair-nonmonotone).  Not
-    mechanised: the gzip container; it is evaluated on the implementation (all axis settings
-    for every generated input). *)
+    implementation behaves the same (known finding wfblock-repair-nonmonotone).  Per-record
+    gzip streams are covered at the level of items (a member is what its payload decompresses
+    to, whole or cut; the compressed bytes themselves are not modelled): the member wrapper
+    keeps all four sentences ([C08_gzip_*], Proofs/GzPolicyProofs.v).  The implementation is
+    run under all axis settings for every generated input, plain and gzip. *)
 Require Import Model.Bytes Model.FieldDef Gen.FieldTable Model.Fields Model.Policy Model.Validate Model.Digest Model.Record.
 Require Import Model.Stream Proofs.NormalizeProofs Proofs.ValidateProofs Proofs.RecordProofs Proofs.PolicyProofs Proofs.SyncPipeProofs.
 Local Open Scope N_scope.
@@ -217,3 +219,36 @@ Definition r_run_at (spec : policy) :=
 Example C08_monotone_example :
   uerr (r_run_at Warn) = false /\ uerr (r_run_at Fail) = true.
 Proof. vm_compute. split; reflexivity. Qed.
+
+(** per-record gzip streams (a stream is a list of items: junk bytes, members given by what their
+    payload decompresses to - whole, or cut with io.ErrUnexpectedEOF after a decodable prefix -
+    and members cut inside the gzip header; Model/Record.v [unmarshal_gz]): the member wrapper
+    around the record parser keeps all four sentences *)
+Require Import Proofs.GzPolicyProofs.
+Theorem C08_gzip_no_axis_at_warn_adds_no_finding :
+  forall uni_lower uni_upper time_ok ip_ok uri_ok wid_ok mime_dec H b32 b64 http_req_ok http_resp_ok o items,
+    no_warn o ->
+    ufindings (gres (unmarshal_gz field_table required_fields uni_lower uni_upper time_ok ip_ok uri_ok wid_ok
+                                  mime_dec H b32 b64 http_req_ok http_resp_ok o items)) = [].
+Proof. intros. apply unmarshal_gz_quiet; assumption. Qed.
+Print Assumptions C08_gzip_no_axis_at_warn_adds_no_finding.
+
+Theorem C08_gzip_fail_errs_exactly_when_warn_finds_or_errs :
+  forall uni_lower uni_upper time_ok ip_ok uri_ok wid_ok mime_dec H b32 b64 http_req_ok http_resp_ok o items,
+    (forall j rest, items = GJunk j :: rest -> j <> []) ->      (* a junk item is at least one byte *)
+    let run p := gres (unmarshal_gz field_table required_fields uni_lower uni_upper time_ok ip_ok uri_ok wid_ok
+                                    mime_dec H b32 b64 http_req_ok http_resp_ok (uni o p) items) in
+    uerr (run Fail) = true <-> (ufindings (run Warn) <> [] \/ uerr (run Warn) = true).
+Proof. intros. apply unmarshal_gz_fail_errs_iff_warn_finds_or_errs; [exact gen_table_ok|assumption]. Qed.
+Print Assumptions C08_gzip_fail_errs_exactly_when_warn_finds_or_errs.
+
+Theorem C08_gzip_rejection_is_monotone :
+  forall uni_lower uni_upper time_ok ip_ok uri_ok wid_ok mime_dec H b32 b64 http_req_ok http_resp_ok
+         o py ps pu pb py' ps' pu' pb' items,
+    stricter py py' -> stricter ps ps' -> stricter pu pu' -> stricter pb pb' ->
+    (py = py' \/ o_fix_wfblock o = false) ->
+    let run oo := gres (unmarshal_gz field_table required_fields uni_lower uni_upper time_ok ip_ok uri_ok wid_ok
+                                     mime_dec H b32 b64 http_req_ok http_resp_ok oo items) in
+    uerr (run (relevel4 o py ps pu pb)) = true -> uerr (run (relevel4 o py' ps' pu' pb')) = true.
+Proof. intros. eapply unmarshal_gz_rejection_is_monotone; try eassumption. exact gen_table_ok. Qed.
+Print Assumptions C08_gzip_rejection_is_monotone.
